@@ -31,6 +31,7 @@ template <class B, class Other> struct world {
     int state[NS];
     size_t ex[NS][2];
     uint32_t val[NS][4];       // plain-array model: val[slot][x * ey + y]
+    uint32_t mat[NS][6];       // stacks with an affine layer on top: the 2x3 matrix is part of the field's value
     size_t live0;
 
     F & at(size_t i) { return *std::launder(reinterpret_cast<F *>(mem[i])); }
@@ -67,6 +68,14 @@ template <class B, class Other> struct world {
                 val[i][x * b + y] = bits;
                 v.at({x, y})[0] = vf_bits<float>(bits);
             }
+        if constexpr (vf::kind_of<B>::value == vf::K_AFFINE) {
+            auto & o = const_cast<typename B::owning_data_t &>(at(i).backend());
+            for (size_t r = 0; r < 2; r++)
+                for (size_t c = 0; c < 3; c++) {
+                    mat[i][r * 3 + c] = vf_nondet_u32();
+                    o.m_transform(r, c) = vf_bits<float>(mat[i][r * 3 + c]);
+                }
+        }
         state[i] = LIVE;
     }
 
@@ -75,6 +84,7 @@ template <class B, class Other> struct world {
         if (dst == src) return;
         ex[dst][0] = ex[src][0]; ex[dst][1] = ex[src][1];
         for (size_t k = 0; k < 4; k++) val[dst][k] = val[src][k];
+        for (size_t k = 0; k < 6; k++) mat[dst][k] = mat[src][k];
     }
 
     const float * buffer(size_t i)
@@ -106,6 +116,11 @@ template <class B, class Other> struct world {
             bool ok = true;
             for (size_t x = 0; x < ex[i][0]; x++)
                 for (size_t y = 0; y < ex[i][1]; y++) ok = ok && vf_bits<uint32_t>(v.at({x, y})[0]) == val[i][x * ex[i][1] + y];
+            if constexpr (vf::kind_of<B>::value == vf::K_AFFINE) {
+                auto t = at(i).backend().get_configuration();
+                for (size_t r = 0; r < 2; r++)
+                    for (size_t c = 0; c < 3; c++) ok = ok && vf_bits<uint32_t>(static_cast<float>(t(r, c))) == mat[i][r * 3 + c];
+            }
             vf_assert(ok, base + 2);
             for (size_t j = i + 1; j < NS; j++)
                 if (state[j] == LIVE) vf_assert(buffer(i) != buffer(j), base + 3);
